@@ -29,7 +29,7 @@ MODULES = [
     (r"^c12_server_hello", "message::hello::verif_hello"),
     (r"^c08_load_configuration", "message::rpc::operation::junos::load_configuration::verif_load"),
     (r"^c08_rpc_error_reader", "message::rpc::error::verif_error"),
-    (r"^c08_|^cal_nothing", "message::rpc::verif_replies"),
+    (r"^c08_|^c13_empty_reply|^c13_partial_reply|^c14_reply|^cal_nothing", "message::rpc::verif_replies"),
     (r"^c19_frequency", "cli::verif_cli"),
     (r"^c19_", "task::verif_task"),
 ]
@@ -127,13 +127,16 @@ _C09 = [
     ("c09_commit_persist_id", ["commit::Builder::persist_id/finish"]),
     ("c09_commit_persist_both", ["commit::Builder::persist/persist_id/finish"]),
     ("c09_simple_ops", ["CancelCommit::new", "DiscardChanges::new", "KillSession::new", "CloseSession::new"]),
-    ("c09_validate", ["Validate::new", "validate::Builder::source/config/finish", "Datastore::try_as_source"]),
+    ("c09_validate_inline_and_running", ["Validate::new", "validate::Builder::source/config/finish", "Datastore::try_as_source"]),
+    ("c09_validate_candidate_startup", ["validate::Builder::source/finish", "Datastore::try_as_source"]),
     ("c09_delete_config", ["DeleteConfig::new", "delete_config::Builder::target/finish", "Datastore::try_as_target"]),
     ("c09_copy_config_to_running", ["CopyConfig::new", "copy_config::Builder::target/source/config/finish"]),
     ("c09_copy_config_to_candidate", ["copy_config::Builder::target/source/config/finish"]),
     ("c09_copy_config_to_startup", ["copy_config::Builder::target/source/config/finish"]),
     ("c09_edit_config_target", ["EditConfig::new", "edit_config::Builder::target/config/finish", "Datastore::try_as_target"]),
-    ("c09_edit_config_test_option", ["edit_config::Builder::test_option", "TestOption::try_use"]),
+    ("c09_edit_config_test_then_set", ["edit_config::Builder::test_option", "TestOption::try_use"]),
+    ("c09_edit_config_test_set", ["edit_config::Builder::test_option", "TestOption::try_use"]),
+    ("c09_edit_config_test_only", ["edit_config::Builder::test_option", "TestOption::try_use"]),
     ("c09_edit_config_error_option", ["edit_config::Builder::error_option", "ErrorOption::try_use"]),
     ("c09_url_file", ["Url::try_new", "edit_config::Builder::url", "delete_config::Builder::url"]),
     ("c09_url_ftp", ["Url::try_new"]),
@@ -264,6 +267,33 @@ CHECKS["C12"] = {
         harness("c12_server_hello_reader", functions=["ServerHello::read_xml", "Capabilities::read_xml", "Capability::from_str", "SessionId::from_str"],
                 bounds="capabilities present/absent x base1.0 x base1.1; session-id absent/once/twice, 6 texts, before or after capabilities",
                 loops=READER_LOOPS, timeout={"quick": 1500, "thorough": 3600}, mem_gb=30),
+    ],
+}
+
+CHECKS["C13"] = {
+    "crates": ["netconf"],
+    "explanation": "2-safety harnesses at event level: a reader is run on a tape and on an information-preserving rewrite of it (comment "
+                   "inserted before/after an item; <ok/> vs <ok></ok>; XML declaration prepended) and must reach the same outcome.",
+    "assumptions": ["namespace prefix vs default namespace, attribute quoting/order and inter-element whitespace are resolved inside quick-xml and invisible at event level",
+                    "whitespace around token-valued text and the configuration readers of the agent are not covered yet"],
+    "harnesses": [
+        harness("c13_empty_reply_comment_insertion", functions=["EmptyReply::read_xml"], bounds="1 item from the reply grammar, comment before or after it", loops=READER_LOOPS, stubbing=True, mem_gb=30),
+        harness("c13_empty_reply_ok_element_form", functions=["EmptyReply::read_xml"], bounds="<ok/> vs <ok></ok>", loops=READER_LOOPS, expect="finding", mem_gb=30),
+        harness("c13_partial_reply_xml_declaration", functions=["PartialReply::from_xml/read_xml"], bounds="<rpc-reply><ok/></rpc-reply> with and without <?xml?>", loops=SESSION_LOOPS, expect="finding", mem_gb=30),
+    ],
+}
+
+CHECKS["C14"] = {
+    "crates": ["netconf"],
+    "explanation": "Reply::<CloseSession>::from_xml (ServerMsg::from_xml, Reply::read_xml, MessageId::try_from, EmptyReply::read_xml) over tapes "
+                   "of up to 4 arbitrary cells: any event kind incl. tokenizer errors and unbalanced end tags, any table name/namespace/text, "
+                   "message-id text from 16 values incl. non-numeric ones.  Asserted by Kani's built-in checks: no panic, no overflow, no "
+                   "out-of-bounds, all loops end within the tape.",
+    "assumptions": ["bgpfu's own code over arbitrary *event* sequences; that quick-xml turns arbitrary bytes into events or errors without panicking is assumed",
+                    "allocation of absurd sizes is outside CBMC's model"],
+    "harnesses": [
+        harness("c14_reply_arbitrary_events", functions=["ServerMsg::from_xml", "Reply::read_xml", "MessageId::try_from", "EmptyReply::read_xml"],
+                bounds="<=4 arbitrary cells", loops=READER_LOOPS, stubbing=True, timeout={"quick": 1500, "thorough": 3600}, mem_gb=30),
     ],
 }
 
